@@ -394,6 +394,7 @@ func (cv CertValidity) toTimeStruct() (config.CertificateValidity, error) {
 			d, _ := strconv.Atoi(all[6])
 
 			out.Until = out.From.AddDate(y, m, d)
+			out.Duration = cv.Duration
 			out.IsSet = true
 		} else {
 			//both empty
